@@ -95,6 +95,9 @@ func genHist(r *rand.Rand, id string, tier string, extremes bool) string {
 			return histEnumCase(idx)
 		}
 	}
+	if !extremes && r.Intn(40) == 0 {
+		return genHistBulk(r)
+	}
 	c := Cfg{Kind: []int{1, 2, 3, 4, 6}[r.Intn(5)]}
 	if r.Intn(2) == 0 {
 		c.Cap = 1 + r.Intn(6)
@@ -211,6 +214,90 @@ func genHist(r *rand.Rand, id string, tier string, extremes bool) string {
 			}
 		}
 		applyOp(live, ops[len(ops)-1])
+	}
+	return st.String() + " | " + strings.Join(ops, " ; ")
+}
+
+// genHistBulk: long histories. Anything that depends on how much was pushed or popped before (growth and shrinking of the
+// underlying allocation at 32 / 64 / 128 ... slots, amortised rebuilds, thresholds) only shows after many elements: a large
+// batch (or several), then a long run of pops / removes draining most or all of it, then growth again.
+func genHistBulk(r *rand.Rand) string {
+	c := Cfg{Kind: []int{1, 2, 3, 4, 6}[r.Intn(5)]}
+	if r.Intn(3) == 0 {
+		c.Fifo = true
+	}
+	if r.Intn(4) == 0 {
+		c.Cap = 30 + r.Intn(120)
+	}
+	if r.Intn(4) == 0 {
+		c.Mtx = true
+	}
+	if r.Intn(8) == 0 {
+		c.Ppf = 4 // accepts everything: the policy path
+	}
+	st := V{T: 'K', Form: "n", Cfg: c}
+	var ops []string
+	total := 33 + r.Intn(110)
+	n := 0
+	seq := 0
+	pushN := func(k int) {
+		var vs []string
+		for j := 0; j < k; j++ {
+			seq++
+			if r.Intn(25) == 0 {
+				vs = append(vs, "N")
+			} else {
+				vs = append(vs, V{T: 'i', I: int64(seq)}.String())
+			}
+		}
+		ops = append(ops, "push "+strings.Join(vs, " "))
+		n += k
+		if c.Cap != 0 && n > c.Cap {
+			n = c.Cap
+		}
+	}
+	for left := total; left > 0; {
+		k := left
+		if r.Intn(2) == 0 {
+			k = 1 + r.Intn(left)
+		}
+		pushN(k)
+		left -= k
+	}
+	drain := n/2 + r.Intn(n/2+2)
+	for i := 0; i < drain && n > 0; i++ {
+		switch r.Intn(12) {
+		case 0:
+			ops = append(ops, fmt.Sprintf("rem %d", r.Intn(n)))
+		case 1:
+			ops = append(ops, fmt.Sprintf("rem %d", n-1))
+		default:
+			ops = append(ops, "pop")
+		}
+		n-- // (a remove aimed at a nil slot does nothing; the bookkeeping is only used for aiming)
+	}
+	for i, m := 0, r.Intn(6); i < m; i++ {
+		switch r.Intn(5) {
+		case 0:
+			pushN(1 + r.Intn(40))
+		case 1:
+			ops = append(ops, fmt.Sprintf("ins %s %d", V{T: 'i', I: int64(1000 + i)}, r.Intn(n+2)))
+			n++
+		case 2:
+			ops = append(ops, "rev")
+		case 3:
+			ops = append(ops, "pop")
+			if n > 0 {
+				n--
+			}
+		case 4:
+			if n > 1 {
+				ops = append(ops, fmt.Sprintf("swap %d %d", r.Intn(n), r.Intn(n)))
+			} else {
+				ops = append(ops, "reset")
+				n = 0
+			}
+		}
 	}
 	return st.String() + " | " + strings.Join(ops, " ; ")
 }
